@@ -223,6 +223,59 @@ def check_generic(pane, res):
                     pass
 
 
+def check_derived(pane, res):
+    """A class derived from another pane class compares, orders and hashes over ALL its fields (inherited first)."""
+    for (eq, order, frozen, uh) in OPTS:
+        if not eq and order:
+            continue
+        for gen in (1, 2):
+            cell = {'derived': True, 'opts': [eq, order, frozen, uh], 'gen': gen}
+            cfg = f"derived class (generation {gen}) eq={eq} order={order} frozen={frozen} unsafe_hash={uh}"
+            try:
+                PB = type('DBase', (pane.PaneBase,), {'__annotations__': {'a': int, 'b': int}, '__module__': 'mc.generated'},
+                          eq=eq, order=order, frozen=frozen, unsafe_hash=uh)
+                PD = type('DDer', (PB,), {'__annotations__': {'c': int, 'note': int}, 'note': pane.field(default=0, compare=False),
+                                          '__module__': 'mc.generated'})
+                MB = dataclasses.dataclass(eq=eq, order=order, frozen=frozen, unsafe_hash=uh)(type('DBase', (), {'__annotations__': {'a': int, 'b': int}}))
+                MD = dataclasses.dataclass(eq=eq, order=order, frozen=frozen, unsafe_hash=uh)(
+                    type('DDer', (MB,), {'__annotations__': {'c': int, 'note': int}, 'note': dataclasses.field(default=0, compare=False)}))
+                if gen == 2:
+                    PD = type('DDer2', (PD,), {'__annotations__': {'d': int}, 'd': 0, '__module__': 'mc.generated'})
+                    MD = dataclasses.dataclass(eq=eq, order=order, frozen=frozen, unsafe_hash=uh)(type('DDer2', (MD,), {'__annotations__': {'d': int}, 'd': 0}))
+            except Exception as e:  # noqa
+                core.add_violation(res, {'kind': 'derived_creation', 'exc': type(e).__name__}, f"{cfg}: {e!r}", cell, 3)
+                continue
+            grid = list(itertools.product((0, 1), repeat=3))
+            extra = [(0,), (1,)] if gen == 2 else [()]
+            pi = [PD.make_unchecked(*g, 5, *x) for g in grid for x in extra]
+            mi = [MD(*g, 5, *x) for g in grid for x in extra]
+            res['states'] += 1
+            res['nontrivial'].add(f"derived|{eq}|{order}|{frozen}|{uh}|{gen}")
+            ops = [('==', lambda a, b: a == b), ('<', lambda a, b: a < b), ('<=', lambda a, b: a <= b), ('>', lambda a, b: a > b), ('>=', lambda a, b: a >= b)]
+            for i in range(len(pi)):
+                for j in range(len(pi)):
+                    for name, f in ops:
+                        a = op_result(lambda: f(pi[i], pi[j]))
+                        b = op_result(lambda: f(mi[i], mi[j]))
+                        res['transitions'] += 1
+                        if a != b:
+                            core.add_violation(res, {'kind': 'derived_comparison_differs_from_mirror', 'op': name, 'order': order},
+                                               f"{cfg}: {pi[i]!r} {name} {pi[j]!r} -> {a}, the mirror dataclass hierarchy gives {b}", cell, 3)
+                    if eq and order:
+                        k = op_result(lambda: (pi[i] < pi[j]) + (pi[i] == pi[j]) + (pi[i] > pi[j]))
+                        if k != ('v', 1):
+                            core.add_violation(res, {'kind': 'derived_trichotomy'}, f"{cfg}: {pi[i]!r} vs {pi[j]!r}: {k} of <, ==, > hold", cell, 3)
+                    ha, hb = op_result(lambda: hash(pi[i]) == hash(pi[j])), op_result(lambda: hash(mi[i]) == hash(mi[j]))
+                    if ha != hb and (eq or uh):
+                        core.add_violation(res, {'kind': 'derived_hash_differs_from_mirror'},
+                                           f"{cfg}: hash equality of {pi[i]!r} and {pi[j]!r} is {ha}, mirror {hb}", cell, 3)
+            res['evals'] += len(pi) ** 2
+            res['validated'] += len(pi) ** 2
+            rp, rm = repr(pi[3]), repr(mi[3])
+            if rp != rm:
+                core.add_violation(res, {'kind': 'derived_repr'}, f"{cfg}: repr {rp!r} vs mirror {rm!r}", cell, 3)
+
+
 # ------------------------------------------------------------------ histories
 
 def check_histories(pane, res, depth):
@@ -309,6 +362,7 @@ def run_shard(shard, tier):
     if shard.get('hist'):
         check_histories(pane, res, 3 if tier == 'quick' else 4)
         check_generic(pane, res)
+        check_derived(pane, res)
         res['samples'].append({'start': 'from_data({})', 'history': ['copy', 'setattr_n', 'replace_bad']})
         return res
     for body in BODIES:
@@ -330,9 +384,10 @@ def replay(cell):
     pane = core.import_pane()
     warnings.simplefilter('ignore')
     res = core.new_result()
-    if cell.get('hist') or cell.get('generic'):
+    if cell.get('hist') or cell.get('generic') or cell.get('derived'):
         check_histories(pane, res, 4)
         check_generic(pane, res)
+        check_derived(pane, res)
         out = [v for lst in res['violations'].values() for v in lst]
         return [v for v in out if v['cell'] == cell] or out
     for tier in ('quick', 'thorough'):
